@@ -283,17 +283,6 @@ def torch_marginals(marg, kind):
     return [None if m is None else torch.tensor(m, dtype=dt) for m in marg]
 
 
-def close(a, b, tol=1e-9):
-    a = np.asarray(a, dtype=np.float64); b = np.asarray(b, dtype=np.float64)
-    if a.shape != b.shape:
-        return False
-    if a.size == 0:
-        return True
-    if not np.all(np.isfinite(a)):
-        return False
-    return bool(np.max(np.abs(a - b)) <= tol * max(1.0, float(np.max(np.abs(b)))))
-
-
 def tolist(v):
     if isinstance(v, tn.Tensor):
         v = v.torch()
@@ -569,19 +558,19 @@ class Prop:
         for k, x in v.items():
             if k not in ("dd", "md") and not (-tol <= x <= 1 + tol):
                 return False, "index %s = %s outside [0,1]" % (k, x)
-        if abs(v["any"] - 1) > tol:
+        if not (abs(v["any"] - 1) <= tol):
             return False, "index of 'any variable' is %s" % v["any"]
-        if abs(v["A"] + v["B"] - v["AorB"]) > tol:
+        if not (abs(v["A"] + v["B"] - v["AorB"]) <= tol):
             return False, "not additive over disjoint masks: %s + %s vs %s" % (v["A"], v["B"], v["AorB"])
         for n in range(N):
-            if v["total%d" % n] < v["comp%d" % n] - tol:
+            if not (v["total%d" % n] >= v["comp%d" % n] - tol):
                 return False, "total index %s < variance component %s" % (v["total%d" % n], v["comp%d" % n])
-        if abs(sum(v["dd"]) - 1) > tol:
+        if not (abs(sum(v["dd"]) - 1) <= tol):
             return False, "dimension distribution sums to %s" % sum(v["dd"])
         md = sum(sum(int(c) for c in k[1:]) * x for k, x in v.items() if k[0] == "S")
-        if abs(v["md"] - md) > tol * N:
+        if not (abs(v["md"] - md) <= tol * N):
             return False, "mean dimension %s, size-weighted sum of components %s" % (v["md"], md)
-        if v["md"] < 1 - tol:
+        if not (v["md"] >= 1 - tol):
             return False, "mean dimension %s < 1" % v["md"]
         return True, ""
 
